@@ -2,7 +2,7 @@ CONFIG = dict(
     level="fault_enumeration",
     programs=[("Sim1", "default", 1500, 8, 60000, 8), ("Sim2", "default", 2400, 2, 60000, 3),
               ("Sim3", "default", 1200, 1, 30000, 1), ("Sim1", "wide", 600, 2, 20000, 3),
-              ("Sim2", "compound", 0, 0, 10000, 1), ("Sim4", "default", 200, 1, 10000, 1), ("LDAP", "compound", 0, 0, 20000, 2), ("Sim7", "compound", 200, 1, 10000, 1)],
+              ("Sim2", "compound", 0, 0, 10000, 1), ("Sim4", "default", 320, 4, 10000, 2), ("LDAP", "compound", 0, 0, 20000, 2), ("Sim7", "compound", 200, 1, 10000, 1)],
     budget_quick=60, budget_thorough=1500,
     eval_counter="c07.ops", nontrivial_set="c07.nontrivial_subjects",
     rule="subject = (program, PDU type, value from asn_random_fill / seed file / all-zero structure, 0-2 damage operations applied "
